@@ -1055,6 +1055,14 @@ class _ConstFold(ast.NodeTransformer):
 
     def visit_Call(self, node):
         node = self.generic_visit(node)
+        if isinstance(node.func, ast.Name) and node.func.id in ('tuple', 'list') and not node.keywords and len(node.args) <= 1:
+            if not node.args:
+                self.changed = True
+                return ast.copy_location((ast.Tuple if node.func.id == 'tuple' else ast.List)(elts=[], ctx=ast.Load()), node)
+            a = node.args[0]
+            if isinstance(a, (ast.Tuple, ast.List)) and not any(isinstance(e, ast.Starred) for e in a.elts):
+                self.changed = True
+                return ast.copy_location((ast.Tuple if node.func.id == 'tuple' else ast.List)(elts=list(a.elts), ctx=ast.Load()), node)
         if isinstance(node.func, ast.Name) and node.func.id == 'issubclass' and len(node.args) == 2 and not node.keywords \
                 and all(isinstance(a, ast.Name) and a.id in self.bases for a in node.args):
             self.changed = True
@@ -1089,6 +1097,35 @@ class _ConstFold(ast.NodeTransformer):
         if isinstance(node.test, ast.Constant) and isinstance(node.test.value, bool):
             self.changed = True
             return node.body if node.test.value else node.orelse
+        return node
+
+    def visit_BinOp(self, node):
+        node = self.generic_visit(node)
+        seq = (ast.Tuple, ast.List)
+        if isinstance(node.op, ast.Add) and isinstance(node.left, seq) and isinstance(node.right, seq) and type(node.left) is type(node.right) \
+                and not any(isinstance(e, ast.Starred) for e in node.left.elts + node.right.elts):
+            self.changed = True
+            return ast.copy_location(type(node.left)(elts=list(node.left.elts) + list(node.right.elts), ctx=ast.Load()), node)
+        if isinstance(node.op, ast.Mult) and isinstance(node.left, seq) and isinstance(node.right, ast.Constant) \
+                and isinstance(node.right.value, int) and not isinstance(node.right.value, bool) and 0 <= node.right.value <= 4 \
+                and len(node.left.elts) == 1 and (_is_plain_literal(node.left.elts[0]) or _is_slice_none(node.left.elts[0])):
+            self.changed = True
+            return ast.copy_location(type(node.left)(elts=[copy.deepcopy(node.left.elts[0]) for _ in range(node.right.value)], ctx=ast.Load()), node)
+        return node
+
+    def visit_Subscript(self, node):
+        node = self.generic_visit(node)
+        if isinstance(node.ctx, ast.Load) and isinstance(node.value, (ast.Tuple, ast.List)) and isinstance(node.slice, ast.Constant) \
+                and isinstance(node.slice.value, int) and not isinstance(node.slice.value, bool) \
+                and -len(node.value.elts) <= node.slice.value < len(node.value.elts) \
+                and not any(isinstance(e, ast.Starred) for e in node.value.elts):
+            self.changed = True
+            return node.value.elts[node.slice.value]
+        # x[(a, slice(None))]  ->  x[a, :]
+        if isinstance(node.slice, ast.Tuple) and any(_is_slice_none(e) for e in node.slice.elts):
+            self.changed = True
+            node.slice = ast.copy_location(ast.Tuple(elts=[ast.Slice(lower=None, upper=None, step=None) if _is_slice_none(e) else e
+                                                           for e in node.slice.elts], ctx=ast.Load()), node.slice)
         return node
 
     def visit_If(self, node):
@@ -1226,7 +1263,7 @@ def _fuse_genexp_loops(fn: ast.FunctionDef) -> int:
     return done
 
 
-def _partial_eval(fn: ast.FunctionDef, bases: Dict[str, List[str]]) -> int:
+def _partial_eval(fn: ast.FunctionDef, bases: Dict[str, List[str]], module_consts: Optional[Dict[str, ast.expr]] = None) -> int:
     """After inlining, a function that received the body of a table- or flag-driven helper is specialised for the constants it was
     called with: single-assignment locals bound to literals are propagated, constant conditions are folded, `L = [..]; L.append(x)`
     becomes one display, loops over displays are unrolled, getattr / setattr with a constant name become attribute accesses, and a
@@ -1263,6 +1300,35 @@ def _partial_eval(fn: ast.FunctionDef, bases: Dict[str, List[str]]) -> int:
                         (isinstance(e, ast.Name) and (stores.get(e.id, 0) == 1 or (e.id in params and stores.get(e.id, 0) == 0)))
                         or _is_slice_none(e) for e in n.value.elts) and any(_is_slice_none(e) for e in n.value.elts):
                     idx[v] = n.value
+        # module-level constants (tuples / lists of literals, literals) that no function rebinds
+        for mc, mv in (module_consts or {}).items():
+            if mc not in stores and mc not in params and mc not in lit:
+                lit[mc] = mv
+        # `L = [a, b]` bound once and only READ (subscripted by constants, iterated, converted): the display itself
+        for n in ast.walk(fn):
+            if isinstance(n, ast.Assign) and len(n.targets) == 1 and isinstance(n.targets[0], ast.Name) and isinstance(n.value, (ast.Tuple, ast.List)) \
+                    and n.targets[0].id.startswith('__h') and stores.get(n.targets[0].id) == 1 and n.targets[0].id not in lit \
+                    and not any(isinstance(e, ast.Starred) for e in n.value.elts) \
+                    and all(_is_plain_literal(e) or _is_slice_none(e) or (isinstance(e, ast.Name) and (
+                        stores.get(e.id, 0) == 1 or (e.id in params and stores.get(e.id, 0) == 0))) for e in n.value.elts):
+                v = n.targets[0].id
+                uses = [x for x in ast.walk(fn) if isinstance(x, ast.Name) and x.id == v and isinstance(x.ctx, ast.Load)]
+                par = {}
+                for p_ in ast.walk(fn):
+                    for ch in ast.iter_child_nodes(p_):
+                        par[id(ch)] = p_
+                ok_use = True
+                for u in uses:
+                    p_ = par.get(id(u))
+                    if isinstance(p_, ast.Subscript) and p_.value is u and isinstance(p_.ctx, ast.Load):
+                        continue
+                    if isinstance(p_, ast.Call) and isinstance(p_.func, ast.Name) and p_.func.id in ('tuple', 'list', 'len', 'enumerate', 'zip') and u in p_.args:
+                        continue
+                    if isinstance(p_, ast.For) and p_.iter is u:
+                        continue
+                    ok_use = False
+                if ok_use and uses:
+                    lit[v] = n.value
         if lit or idx:
             class Sub(ast.NodeTransformer):
                 def visit_Name(s, node):
@@ -1307,6 +1373,16 @@ def _partial_eval(fn: ast.FunctionDef, bases: Dict[str, List[str]]) -> int:
                         j = i + 1
                         while j < len(blk):
                             s2 = blk[j]
+                            if isinstance(s2, ast.Assign) and len(s2.targets) == 1 and isinstance(s2.targets[0], ast.Subscript) \
+                                    and isinstance(s2.targets[0].value, ast.Name) and s2.targets[0].value.id == v \
+                                    and isinstance(s2.targets[0].slice, ast.Constant) and isinstance(s2.targets[0].slice.value, int) \
+                                    and not isinstance(s2.targets[0].slice.value, bool) \
+                                    and -len(st.value.elts) <= s2.targets[0].slice.value < len(st.value.elts) \
+                                    and not any(isinstance(x, ast.Name) and x.id == v for x in ast.walk(s2.value)):
+                                st.value.elts[s2.targets[0].slice.value] = s2.value
+                                del blk[j]
+                                changed += 1
+                                continue
                             if isinstance(s2, ast.Expr) and isinstance(s2.value, ast.Call) and isinstance(s2.value.func, ast.Attribute) \
                                     and s2.value.func.attr == 'append' and isinstance(s2.value.func.value, ast.Name) \
                                     and s2.value.func.value.id == v and len(s2.value.args) == 1 and not s2.value.keywords \
@@ -1349,6 +1425,71 @@ def _attr_path(e):
 def _is_slice_none(e) -> bool:
     return isinstance(e, ast.Call) and isinstance(e.func, ast.Name) and e.func.id == 'slice' and len(e.args) == 1 and not e.keywords \
         and isinstance(e.args[0], ast.Constant) and e.args[0].value is None
+
+
+def _spread_constant_kwargs(fn: ast.FunctionDef) -> int:
+    """`opts = dict(a=x, b=y)` (or `{'a': x, 'b': y}`) bound once, never modified, and used only as `**opts`:  every `f(.., **opts)`
+    becomes `f(.., a=x, b=y)`.  The values must be names that are not rebound in the function (parameters, single-assignment locals)
+    or constants, so that reading them at the call is reading them at the dict display."""
+    stores: Dict[str, int] = {}
+    for n in ast.walk(fn):
+        if isinstance(n, ast.Name) and isinstance(n.ctx, (ast.Store, ast.Del)):
+            stores[n.id] = stores.get(n.id, 0) + 1
+    params = {a.arg for a in fn.args.args + fn.args.kwonlyargs + fn.args.posonlyargs}
+    cands = {}
+    for n in ast.walk(fn):
+        if isinstance(n, ast.Assign) and len(n.targets) == 1 and isinstance(n.targets[0], ast.Name) and stores.get(n.targets[0].id) == 1 \
+                and n.targets[0].id not in params:
+            v = n.value
+            items = None
+            if isinstance(v, ast.Call) and isinstance(v.func, ast.Name) and v.func.id == 'dict' and not v.args and v.keywords \
+                    and all(k.arg is not None for k in v.keywords):
+                items = [(k.arg, k.value) for k in v.keywords]
+            elif isinstance(v, ast.Dict) and v.keys and all(isinstance(k, ast.Constant) and isinstance(k.value, str) and k.value.isidentifier()
+                                                            for k in v.keys):
+                items = [(k.value, val) for k, val in zip(v.keys, v.values)]
+            if items is None:
+                continue
+
+            def stable(e):
+                if isinstance(e, ast.Constant):
+                    return True
+                if isinstance(e, ast.Name):
+                    return (e.id in params and stores.get(e.id, 0) == 0) or (e.id not in params and stores.get(e.id, 0) == 1)
+                if isinstance(e, ast.Attribute):
+                    return stable(e.value)
+                return False
+            if all(stable(val) for _, val in items):
+                cands[n.targets[0].id] = (n, items)
+    if not cands:
+        return 0
+    # every load of the name is the value of a `**name` keyword
+    star_uses: Dict[str, List[ast.keyword]] = {}
+    other: Set[str] = set()
+    kw_values = {}
+    for n in ast.walk(fn):
+        if isinstance(n, ast.Call):
+            for k in n.keywords:
+                if k.arg is None and isinstance(k.value, ast.Name) and k.value.id in cands:
+                    kw_values[id(k.value)] = (n, k)
+    for n in ast.walk(fn):
+        if isinstance(n, ast.Name) and isinstance(n.ctx, ast.Load) and n.id in cands and id(n) not in kw_values:
+            other.add(n.id)
+    done = 0
+    for nid, (call, k) in kw_values.items():
+        name = k.value.id
+        if name in other:
+            continue
+        _, items = cands[name]
+        explicit = {x.arg for x in call.keywords if x.arg is not None}
+        if any(key in explicit for key, _ in items):
+            continue
+        pos = call.keywords.index(k)
+        call.keywords[pos:pos + 1] = [ast.keyword(arg=key, value=copy.deepcopy(val)) for key, val in items]
+        done += 1
+    if done:
+        ast.fix_missing_locations(fn)
+    return done
 
 
 def _desugar_collectors(fn: ast.FunctionDef, generators: Set[str]) -> int:
@@ -1491,6 +1632,7 @@ def inline_new_helpers(tree: ast.Module, module: str) -> int:
         for f in ([n] if isinstance(n, ast.FunctionDef) else
                   [m for m in n.body if isinstance(m, ast.FunctionDef)] if isinstance(n, ast.ClassDef) else []):
             unrolled += _unroll_literal_loops(f)
+            _spread_constant_kwargs(f)
     for n in tree.body:
         if isinstance(n, (ast.FunctionDef, ast.ClassDef)):
             _AttrFold().visit(n)
@@ -1515,6 +1657,21 @@ def inline_new_helpers(tree: ast.Module, module: str) -> int:
         obj = ObjectInliner(classes)
 
     class_bases = {n.name: [b.id for b in n.bases if isinstance(b, ast.Name)] for n in tree.body if isinstance(n, ast.ClassDef)}
+    module_consts: Dict[str, ast.expr] = {}
+    _top_stores: Dict[str, int] = {}
+    for n in ast.walk(tree):
+        if isinstance(n, ast.Name) and isinstance(n.ctx, (ast.Store, ast.Del)):
+            _top_stores[n.id] = _top_stores.get(n.id, 0) + 1
+        elif isinstance(n, (ast.Global, ast.Nonlocal)):
+            for x in n.names:
+                _top_stores[x] = 99
+        elif isinstance(n, ast.arguments):
+            for a in n.args + n.kwonlyargs + n.posonlyargs:
+                _top_stores[a.arg] = 99
+    for n in tree.body:
+        if isinstance(n, ast.Assign) and len(n.targets) == 1 and isinstance(n.targets[0], ast.Name) and _top_stores.get(n.targets[0].id) == 1 \
+                and _is_plain_literal(n.value) and n.targets[0].id not in known:
+            module_consts[n.targets[0].id] = n.value
 
     def process(fn: ast.FunctionDef):
         # new local closures (nested defs that are not in the frozen table) are helpers for the body of `fn` only
@@ -1543,7 +1700,7 @@ def inline_new_helpers(tree: ast.Module, module: str) -> int:
                 if inl.done == before or obj is None:
                     break
             # specialise what was inlined; that may expose further objects / helper calls (a record built in a fused loop)
-            if not (inl.done > done_before and _partial_eval(fn, class_bases)):
+            if not (inl.done > done_before and _partial_eval(fn, class_bases, module_consts)):
                 break
         inl.helpers = saved
         if obj is not None:
